@@ -1418,6 +1418,389 @@ def run_object_batch(rng, n, out, stats, tmp, batch_id):
     compare_batch(runs, out)
 
 
+# ----------------------------------------------------------------------------- objects of a file that changes
+
+PRELUDE_MODULE = "c20prelude"
+_STAMP = [1000000000]
+
+# lambda expressions of a module that is edited: (text after `name = `, lambda lines, suffix, parameter names);
+# `%d` is a constant that differs between the versions of the file
+RELOAD_LAMS = [
+    ("", ["lambda x: x + %d"], "", ["x"]),
+    ("", ["lambda x, y=%d: x * y + G"], "", ["x", "y"]),
+    ("", ["lambda x, y=%d: (x -", "   y)"], "  # two lines", ["x", "y"]),
+    ("wrap(", ["lambda x, y=(%d,", "", "      2): (x +", "  y[0] +", "        G)"], ")", ["x", "y"]),
+    ("", ["lambda x: {'a': x,", "    'b': %d}['b'] + x"], "", ["x"]),
+    ("wrap(0, key=", ["lambda x: 'x' * (x + %d)"], ")", ["x"]),
+    ("", ["lambda: %d"], "", []),
+    ("", ["lambda x: [i for i in range(x + %d)]"], "  # comment", ["x"]),
+]
+
+
+def write_module_file(path, text):
+    """write the file and give it a modification time of its own (linecache, importlib and every cache keyed by
+    the file's name or stat must see an edit)"""
+    with open(path, "w", encoding="utf-8") as f:
+        f.write(text)
+    _STAMP[0] += 100
+    os.utime(path, (_STAMP[0], _STAMP[0]))
+
+
+def gen_reload_lam(rng, nm):
+    c = LamCase()
+    c.name = nm
+    head, lam, sfx, pn = rng.choice(RELOAD_LAMS)
+    k = rng.randrange(2, 90)
+    c.pfx = nm + " = " + head
+    c.lam = [l.replace("%d", str(k)) for l in lam]
+    c.sfx, c.pnames = sfx, list(pn)
+    c.pre = rng.choice(["", "", "", "    ", "\t"])
+    c.features.add("reload_lambda")
+    if len(lam) > 1:
+        c.features.add("lambda_multiline")
+    return c
+
+
+def gen_reload_def(rng, nm):
+    c = gen_def(rng, name=nm, allow_string=False)
+    c.name = nm
+    c.lead = []
+    c.features.add("reload_def")
+    return c
+
+
+def gen_reload_scenario(rng, idx):
+    """a module file in 3-4 versions: definitions (defs and lambdas of the grammar) under stable names, replaced by
+    other definitions of the same name on the same or on shifted lines, added and removed; captured from the
+    function OBJECTS after every edit, and reloaded into a space made from the module"""
+    defs_only = rng.random() < 0.4
+    n = rng.randrange(2, 5)
+    kinds = ["def" if (defs_only or rng.random() < 0.45) else "lam" for _ in range(n)]
+    if not defs_only and "lam" not in kinds:
+        kinds[0] = "lam"
+    if rng.random() < 0.5:
+        kinds.sort(key=lambda k: k != "lam")       # lambdas first: they stay on their lines when defs change
+    names = ["%s%d_%d" % ("d" if k == "def" else "l", idx, i) for i, k in enumerate(kinds)]
+
+    def fresh(i):
+        return gen_reload_def(rng, names[i]) if kinds[i] == "def" else gen_reload_lam(rng, names[i])
+
+    cur = [fresh(i) for i in range(n)]
+    extra = gen_reload_def(rng, "x%d" % idx)
+    has_extra = rng.random() < 0.3
+    toggled = False
+    head = []
+    versions = []
+    for v in range(rng.choice([3, 3, 4])):
+        if v > 0:
+            changed = False
+            for i in range(n):
+                if rng.random() < 0.6:
+                    cur[i] = fresh(i)
+                    changed = True
+            if not changed:
+                cur[0] = fresh(0)
+            if rng.random() < 0.35:
+                head = head + rng.choice([["# edited"], ["", "# a note", ""], ["import math"]])
+            elif head and rng.random() < 0.2:
+                head = head[1:]
+            if not toggled and rng.random() < 0.3:
+                # a function appears or disappears - once (a name that comes back after it was removed makes
+                # Space.reload() fail with ValueError: the bookkeeping of reload, not the capture of formulas)
+                has_extra = not has_extra
+                toggled = True
+        items = [{"name": names[i], "case": cur[i].to_json()} for i in range(n)]
+        if has_extra:
+            items.append({"name": extra.name, "case": extra.to_json()})
+        versions.append({"head": list(head), "items": items})
+    return {"via": "reload", "module_name": "c20reload_%d" % idx, "versions": versions,
+            "evaluate_first": rng.random() < 0.5,
+            "import_with": rng.choice(["import_module", "new_space_from_module"])}
+
+
+def module_text(version):
+    parts = ["from %s import *\n" % PRELUDE_MODULE] + [l + "\n" for l in version["head"]]
+    for it in version["items"]:
+        c = case_from_json(it["case"])
+        text = core_render(c)
+        parts.append(("if True:\n" + text) if c.pre else text)
+        parts.append("\n")
+    return "".join(parts)
+
+
+def object_view(c, fobj):
+    """the structure modelx is given for a def OBJECT: inspect.getsource(func), i.e. from the first decorator (or
+    `def`) to the end of the block"""
+    if c.kind != "def":
+        return c
+    gs = inspect.getsource(fobj)
+    full = core_render(c).split("\n")[:-1]
+    skip = len(c.lead)
+    got = gs.split("\n")[:-1]
+    if full[skip:skip + len(got)] != got:
+        return None     # the object is not the definition of the file's current text
+    n_tail = len(full) - skip - len(got)
+    c2 = DefCase.from_json(c.to_json())
+    c2.lead = []
+    if n_tail > len(c.trail):
+        raise core.Infra("inspect.getsource cut into the body")
+    c2.trail = c.trail[:len(c.trail) - n_tail]
+    return c2
+
+
+class OuterOut:
+    """reports of the single captures go to the history of the whole scenario"""
+
+    def __init__(self, out, outer, where):
+        self.out, self.outer, self.where = out, outer, where
+
+    def fail(self, what, history, detail=None, key=None):
+        d = dict(detail or {})
+        d["at"] = self.where
+        self.out.fail(what, self.outer, detail=d, key=key)
+
+    def disagree(self, history, index, impl, model, layer=None):
+        self.out.disagree(self.outer, index, "%s: %s" % (self.where, impl), "%s: %s" % (self.where, model), layer=layer)
+
+
+def load_version(h, k, tmp):
+    """write version k of the scenario's file and import or reload the module"""
+    name = h["module_name"]
+    path = os.path.join(tmp, name + ".py")
+    text = module_text(h["versions"][k])
+    write_module_file(path, text)
+    try:
+        if name in sys.modules:
+            mod = importlib.reload(sys.modules[name])
+        else:
+            importlib.invalidate_caches()
+            mod = importlib.import_module(name)
+    except Exception as e:   # noqa
+        raise core.Infra("generated module does not import: %s\n%s" % (e, text[:2000]))
+    return mod, text
+
+
+def model_capture_ops(case, name):
+    if case.kind == "def":
+        return ["reset", case.op("new", "def", "%none" if name is None else esc(name)), "obs"]
+    return ["reset", case.op("new", "lam", "obj", esc(name or "lam")), "obs"]
+
+
+def run_reload_history(h, out, stats, tmp):
+    """(1) after every edit of the file: cells from the function objects of the re-imported module, each checked as
+    every object capture is (source against the model, values against the object, fixed point, rename, set_doc);
+    (2) a space made from the module, reloaded by modelx after every edit: every cells must compute what the
+    module's function of that name computes now, and show its text"""
+    cases = [case_from_json(it["case"]) for v in h["versions"] for it in v["items"]]
+    prerender(cases)
+    stats.feat(["reload_scenario"])
+    # ---- (1) direct capture from the objects
+    for k in range(len(h["versions"])):
+        mod, text = load_version(h, k, tmp)
+        proxy = OuterOut(out, h, "version %d, new_cells(formula=<object>)" % k)
+        runs = []
+        for it in h["versions"][k]["items"]:
+            nm = it["name"]
+            fobj = getattr(mod, nm)
+            case = object_view(case_from_json(it["case"]), fobj)
+            if case is None:
+                raise core.Infra("inspect.getsource returned something else than the definition lines")
+            prerender([case])
+            ops = [["recreate", 0]] if k % 2 else [["rename", "r_" + nm], ["setdoc", 0, 0, "doc %d" % k], ["recreate", 0]]
+            sub = {"via": "object", "base": case.to_json(), "name": "c_" + nm, "subs": [], "ops": ops,
+                   "module": text, "accessor": nm}
+            runs.append(run_impl(sub, proxy, stats, func_obj=fobj))
+            stats.feat(["reload_capture_v%d" % min(k, 1)])
+        compare_batch(runs, proxy)
+    # ---- (2) modelx's own reload of a space made from the module
+    close_all()
+    try:
+        # a fresh import: importlib.reload() keeps the names of earlier versions in the module's namespace
+        sys.modules.pop(h["module_name"], None)
+        mod, text = load_version(h, 0, tmp)
+        with quiet():
+            m = mx.new_model()
+            sp = getattr(m, h["import_with"])(module=mod, name="Imported")
+            sp.G = G_VALUE
+        evaluated = set()          # cells evaluated since the namespace of the space last changed
+        stale_risk = set()         # cells whose formula was replaced by a reload while in `evaluated`
+        reloaded_lambda = False
+        prev_names = None
+        for k in range(len(h["versions"])):
+            ver = h["versions"][k]
+            names = [it["name"] for it in ver["items"]]
+            where = "version %d, Space.reload()" % k if k else "version 0, %s" % h["import_with"]
+            if k:
+                mod, text = load_version(h, k, tmp)
+                prev = {it["name"]: it["case"] for it in h["versions"][k - 1]["items"]}
+                before = set(sp.cells)
+                try:
+                    with quiet():
+                        sp.reload()
+                except Exception as e:   # noqa
+                    key = None
+                    if isinstance(e, KeyError) and e.args == ("<lambda>",) and reloaded_lambda:
+                        key = "C20-reload-lambda-name"
+                    out.fail("Space.reload() raised %s" % type(e).__name__, h,
+                             detail={"at": where, "error": err_kind(e)}, key=key)
+                    return
+                mod = sys.modules[h["module_name"]]
+                # a cells created by the reload changes the namespace of the space, which makes every cells bind
+                # its formula's code again; nothing else does
+                same_names = not (set(sp.cells) - before)
+                if not same_names:
+                    evaluated.clear()
+                    stale_risk.clear()
+                else:
+                    for it in ver["items"]:
+                        if it["name"] in evaluated and it["case"] != prev.get(it["name"]):
+                            stale_risk.add(it["name"])
+                if any(case_from_json(it["case"]).kind == "lam" and it["name"] in prev for it in ver["items"]):
+                    reloaded_lambda = True
+                stats.feat(["space_reload", "space_reload_" + ("same_names" if same_names else "names_changed")])
+            prev_names = names
+            ops, impl_lines, tags = [], [], []
+            for it in ver["items"]:
+                nm = it["name"]
+                fobj = getattr(mod, nm)
+                case = object_view(case_from_json(it["case"]), fobj)
+                if case is None:
+                    raise core.Infra("the reloaded module does not hold the definitions of the file")
+                if nm not in sp.cells:
+                    out.fail("a function of the module has no cells after %s" % ("reload" if k else "import"), h,
+                             detail={"at": where, "name": nm})
+                    continue
+                c = sp.cells[nm]
+                ops.extend(model_capture_ops(case, None if case.kind == "def" else nm))
+                impl_lines.extend(["ok", "ok", observe_entry(c)])
+                tags.append(nm)
+                if k == 0 and not h["evaluate_first"]:
+                    continue
+                argsets = sample_args(case.pnames)
+                want = call_all(fobj, argsets)
+                got = call_all(c, argsets)
+                stats.evals += len(got)
+                evaluated.add(nm)
+                if got != want:
+                    out.fail("a cells of a space made from a module does not compute what the module's function "
+                             "computes %s" % ("after the module was edited and the space reloaded" if k else "after import"),
+                             h, detail={"at": where, "name": nm, "cells": got, "function": want,
+                                        "source": c.formula.source},
+                             key="C20-reload-stale-code" if nm in stale_risk else None)
+                src = c.formula.source
+                try:
+                    ns = reference_namespace()
+                    if c._impl.formula._is_lambda:
+                        fn = eval(compile("(" + src + "\n)", "<source>", "eval"), ns)
+                    else:
+                        exec(compile(src, "<source>", "exec"), ns)
+                        fn = ns.get(nm)
+                    again = call_all(fn, argsets)
+                except Exception as e:   # noqa
+                    again = [("exec-failed", type(e).__name__)]
+                if again != want:
+                    out.fail("formula.source of a cells of a space made from a module is not the module's function", h,
+                             detail={"at": where, "name": nm, "source": src, "got": again, "function": want})
+                if tuple(c.parameters) != tuple(inspect.signature(fobj).parameters):
+                    out.fail("cells.parameters differ from the function's parameters", h,
+                             detail={"at": where, "name": nm, "cells": list(c.parameters)})
+            if ops:
+                lines = core.run_driver("capture", ops)
+                for j, nm in enumerate(tags):
+                    a, b = impl_lines[3 * j + 2], model_doc_values(lines[3 * j + 2])
+                    if a != b:
+                        out.disagree(h, k, "%s %s: %s" % (where, nm, a), "%s %s: %s" % (where, nm, b), layer="capture")
+    finally:
+        close_all()
+
+
+def reload_motifs():
+    """scenario families that are run first on every run: the same file written, imported, captured, rewritten"""
+    def lam(nm, text, pn, pre="", sfx=""):
+        c = LamCase()
+        c.name, c.pfx, c.lam, c.sfx, c.pnames, c.pre = nm, nm + " = ", text if isinstance(text, list) else [text], sfx, pn, pre
+        c.features = {"reload_lambda"}
+        return c.to_json()
+
+    def fn(nm, sig, pn, body, doc=None):
+        c = DefCase()
+        c.name, c.sig, c.pnames = nm, sig, pn
+        if doc:
+            c.doc, c.after, c.rest = ('"""', [doc], '"""'), "", ["    " + b for b in body]
+        else:
+            c.after, c.rest = body[0], ["    " + b for b in body[1:]]
+        c.features = {"reload_def"}
+        return c.to_json()
+
+    def scen(tag, versions, evaluate_first, how="import_module"):
+        return {"via": "reload", "module_name": "c20reload_" + tag, "evaluate_first": evaluate_first, "import_with": how,
+                "versions": [{"head": hd, "items": [{"name": c["name"], "case": c} for c in items]} for hd, items in versions]}
+
+    ms = []
+    # lambdas stay on their lines; bodies and defaults change; a def below them changes too
+    ms.append(scen("m1", [
+        ([], [lam("foo", "lambda x: x + 1", ["x"]), lam("bar", ["lambda x, y=2: (x *", "      y)"], ["x", "y"]),
+              fn("baz", "(x):", ["x"], ["return 3 * x"], doc="the def")]),
+        ([], [lam("foo", "lambda x: x * 100", ["x"]), lam("bar", ["lambda x, y=5: (x -", "      y)"], ["x", "y"]),
+              fn("baz", "(x):", ["x"], ["return 4 * x"], doc="the def")]),
+        ([], [lam("foo", "lambda x, y=3: x - y", ["x", "y"]), lam("bar", ["lambda x: (x,", "      G)"], ["x"]),
+              fn("baz", "(x, y=1):", ["x", "y"], ["return 5 * x + y"], doc="the def")])], False))
+    # the same, every cells evaluated before each reload; another way of making the space
+    ms.append(scen("m2", [(v["head"], [it["case"] for it in v["items"]]) for v in ms[0]["versions"]],
+                   True, "new_space_from_module"))
+    # the lambdas move to other lines (lines inserted above, a def above grows), then back
+    ms.append(scen("m3", [
+        ([], [fn("top", "(x):", ["x"], ["return x"]), lam("foo", "lambda x: x + 1", ["x"]), lam("lst", "lambda x: [x, 1]", ["x"])]),
+        (["# inserted", ""], [fn("top", "(x):", ["x"], ["a = x", "return a + 1"]), lam("foo", "lambda x: x + 2", ["x"]),
+                              lam("lst", "lambda x: [x, 2]", ["x"])]),
+        ([], [fn("top", "(x):", ["x"], ["return x"]), lam("foo", "lambda x: x + 3", ["x"]), lam("lst", "lambda x: [x, 3]", ["x"])])],
+        False))
+    # a line holds a def in one version and a lambda in the next, and the other way round
+    ms.append(scen("m4", [
+        ([], [_oneline("one", "return x + 1"), lam("two", "lambda x: x * 2", ["x"])]),
+        ([], [lam("one", "lambda x: x + 10", ["x"]), _oneline("two", "return x * 20")]),
+        ([], [_oneline("one", "return x + 100"), lam("two", "lambda x: x * 200", ["x"])])], False))
+    # defs only: evaluated, edited (nothing added or removed), reloaded twice; then a function is added
+    ms.append(scen("m5", [
+        ([], [fn("baz", "(x):", ["x"], ["return 3 * x"]), fn("qux", "(x, y=2):", ["x", "y"], ["return x + y"])]),
+        ([], [fn("baz", "(x):", ["x"], ["return 4 * x"]), fn("qux", "(x, y=2):", ["x", "y"], ["return x + y"])]),
+        ([], [fn("baz", "(x, y=2):", ["x", "y"], ["return 5 * x + y"]), fn("qux", "(x, y=3):", ["x", "y"], ["return x - y"])]),
+        ([], [fn("baz", "(x, y=2):", ["x", "y"], ["return 6 * x + y"]), fn("qux", "(x, y=3):", ["x", "y"], ["return x - y"]),
+              fn("added", "(x):", ["x"], ["return x"])])], True))
+    # indented lambdas (inside an `if` block of the module), multi-line, decorated defs
+    ms.append(scen("m6", [
+        ([], [lam("ind", ["lambda x, y=(1,", "      2): x + y[0]"], ["x", "y"], pre="    "), lam("z", "lambda: 7", [])]),
+        (["import math"], [lam("ind", ["lambda x, y=(4,", "      2): x - y[0]"], ["x", "y"], pre="    "), lam("z", "lambda: 8", [])])],
+        True))
+    return ms
+
+
+def _oneline(nm, stmt):
+    c = DefCase()
+    c.name, c.sig, c.pnames, c.body, c.after = nm, "(x): ", ["x"], "inline", stmt
+    c.features = {"reload_def", "one_line_body"}
+    return c.to_json()
+
+
+def run_reload_stream(ctx, n, out, stats, tmp, first=()):
+    with open(os.path.join(tmp, PRELUDE_MODULE + ".py"), "w") as f:
+        f.write(NS_PRELUDE)
+    if tmp not in sys.path:
+        sys.path.insert(0, tmp)
+    try:
+        for h in list(first) + reload_motifs():
+            run_reload_history(h, out, stats, tmp)
+            RENDER.clear()
+        for i in range(n):
+            run_reload_history(gen_reload_scenario(ctx.rng("reload", i), i), out, stats, tmp)
+            RENDER.clear()
+    finally:
+        if tmp in sys.path:
+            sys.path.remove(tmp)
+        for k in [k for k in sys.modules if k.startswith("c20reload_") or k == PRELUDE_MODULE]:
+            del sys.modules[k]
+
+
 # ----------------------------------------------------------------------------- quote_docstring
 
 def run_quote_docs(docs, out, stats):
@@ -1561,7 +1944,9 @@ def run(ctx, out):
     stats = Stats()
     n_hist = ctx.n(260, 6000)
     n_obj_batches = ctx.n(4, 60)
-    hists = corpus_histories() + fixed_histories()
+    corpus = corpus_histories()
+    reload_corpus = [h for h in corpus if h.get("via") == "reload"]
+    hists = [h for h in corpus if h.get("via") != "reload"] + fixed_histories()
     n_fixed = len(hists)
     for i in range(n_hist):
         hists.append(gen_history(ctx.rng("hist", i), i))
@@ -1581,6 +1966,7 @@ def run(ctx, out):
     try:
         for b in range(n_obj_batches):
             run_object_batch(ctx.rng("objects", b), 8, out, stats, tmp, b)
+        run_reload_stream(ctx, ctx.n(10, 150), out, stats, tmp, first=reload_corpus)
     finally:
         shutil.rmtree(tmp, ignore_errors=True)
         for k in [k for k in sys.modules if k.startswith("c20mod_")]:
@@ -1621,6 +2007,19 @@ def replay(ctx, payload, out):
         return
     if "quote" in h:
         run_quote_docs([h["quote"]], out, stats)
+        return
+    if h.get("via") == "reload":
+        tmp = tempfile.mkdtemp(prefix="mxh_c20_")
+        try:
+            with open(os.path.join(tmp, PRELUDE_MODULE + ".py"), "w") as f:
+                f.write(NS_PRELUDE)
+            sys.path.insert(0, tmp)
+            run_reload_history(h, out, stats, tmp)
+        finally:
+            sys.path.remove(tmp)
+            shutil.rmtree(tmp, ignore_errors=True)
+            for k in [k for k in sys.modules if k.startswith("c20reload_") or k == PRELUDE_MODULE]:
+                del sys.modules[k]
         return
     if h.get("via") == "object":
         tmp = tempfile.mkdtemp(prefix="mxh_c20_")
